@@ -35,7 +35,7 @@ func runC13(w *World) {
 			ip = fmt.Sprintf("fd00:1::%d", k+1)
 		}
 		spec := PeerSpec{RemoteIP: ip, LocalAS: 65001, RemoteAS: uint32(65100 + k), Hold: 90, IdleHold: 20 * time.Second, ConnectRetry: 10 * time.Second,
-			Passive: w.Chance(1, 2, "passive")}
+			Passive: w.Chance(1, 2, "passive"), Port: Pick(w, "port", 0, 0, 1179, 179)} // (the port is where corebgp dials; admission must not look at it)
 		if w.Chance(1, 2, "localaddr") {
 			if v6 {
 				spec.LocalAddr = locals6[w.Draw(2, "la6")]
